@@ -171,6 +171,20 @@ def run(ctx):
         res.check(len(hs) == 1 and re.match(r"^is_hide_set\(", expr(b, hs[0].args[1], 4)) is not None, "R18.3", "hidden-from-item|" + fn_, b.where(),
                   "candidate visibility copied from the item's is_hide_set()", "%s does not copy is_hide_set() of the item" % fn_)
 
+    # ---------------- R18.3b nothing but the reviewed tests can drop a candidate (completeness side)
+    OKC = (r"(candidate::CompletionCandidate::(get_value|is_hide_set|get_id|get_tag|get_display_order|new|help|hide|id|tag|display_order|add_prefix)|arg::Arg::(get_\w+|is_positional)|"
+           r"possible_value::PossibleValue::(get_\w+|is_hide_set)|complete::populate_arg_candidate|command::Command::get_\w+)$")
+    ndrop = 0
+    for b in fx.bodies(r"^clap_complete::engine::complete::"):
+        for u in b.calls_to(r"Iterator::(filter|filter_map|take_while|skip_while|skip|take|step_by)$", r"Vec::(retain|truncate|drain|remove|swap_remove|clear|pop)$"):
+            ndrop += 1
+            extra = sorted(set(cc.callee_q.split("::", 1)[1] for cb in closure_bodies(fx, u) for x in tree(cb) for cc in x.calls()
+                               if cc.callee_q and re.match(r"^clap_", cc.callee_q) and not sp_macro(cc.sp) and not re.search(OKC, cc.callee_q)))
+            trunc = u.is_(r"Iterator::(skip|take|step_by)$", r"Vec::(truncate|drain|remove|swap_remove|clear|pop)$")
+            res.check(not extra and not trunc, "R18.3", "candidate-drop|%s|%s" % (b.q.split("::", 3)[-1].split("{")[0].rstrip(":"), u.callee_q.rsplit("::", 1)[1]), u.where(),
+                      "candidates dropped only by prefix / hidden / duplicate-id tests", "%s %s the candidate list%s: a visible option or subcommand extending the word may not be offered" % (
+                          b.q, "truncates" if trunc else "filters", "" if trunc else " with " + str(extra)))
+    res.floor("R18.3", "candidate-dropping operations in the engine", ndrop, 10)
     # ---------------- R18.4 shadow-parse transitions mirror the grammar of the real parser
     ns = comp.locals_named("next_state")
     res.floor("R18.4", "`next_state` local", len(ns), 1)
